@@ -4,6 +4,7 @@ import Dm.Driver.SplitCmd
 import Dm.Driver.ErrCmd
 import Dm.Driver.TfCmd
 import Dm.Driver.FsCmd
+import Dm.Driver.DtCmd
 
 /- Line-protocol driver of the Lean model: one request per line, one answer per line. -/
 
@@ -17,6 +18,7 @@ def handle (line : String) : String :=
   | "std" :: args => Dm.FmtCmd.cmdStd args
   | "es" :: args => Dm.ErrCmd.cmdEs args
   | "fs" :: args => Dm.FsCmd.cmdFs args
+  | "dt" :: args => Dm.DtCmd.cmdDt args
   | _ => "bad-op"
 
 partial def loop (h : IO.FS.Stream) (out : IO.FS.Stream) : IO Unit := do
